@@ -10,6 +10,8 @@ from fractions import Fraction
 from . import gen, kernel, model, ops
 from .world import HEAP_MAX, J, mutable_ids
 
+HEAD_ROOM = HEAP_MAX + 2  # slots a probe may add beyond the heap bound
+
 FAULT_EXCS = ["interrupt", "interrupt", "interrupt", "memory", "assertion", "value", "type", "zerodiv"]
 
 PROFILES = {
@@ -401,6 +403,24 @@ class Scheduler:
                 step["pform"] = "point2d"  # a caller-owned Point2D that must come back unchanged
             if kind == "contains_point":
                 step["boundary"] = r.random() < 0.5
+            if not isinstance(v, str) and r.random() < 0.15:
+                # a point a few 1e-6 away from an edge: just outside the library's nominal
+                # point-on-boundary tolerance (1e-6), where a drifting tolerance shows first
+                segs = [seg for ch in kernel.chains_of(v) for seg in ch if len(seg) == 2]
+                segs = [sg for sg in segs if abs(float(sg[1][0] - sg[0][0])) > 0.2 and abs(float(sg[1][1] - sg[0][1])) > 0.2]
+                if segs:
+                    sg = r.choice(segs)
+                    ax, ay, bx, by = float(sg[0][0]), float(sg[0][1]), float(sg[1][0]), float(sg[1][1])
+                    t = r.uniform(0.2, 0.8)
+                    ln = math.hypot(bx - ax, by - ay)
+                    off = r.choice([-1, 1]) * r.uniform(2.5e-6, 9e-6)
+                    q = (ax + t * (bx - ax) - off * (by - ay) / ln, ay + t * (by - ay) + off * (bx - ax) / ln)
+                    step["p"] = _jp(q)
+                    st = self._oracle_flags(step)
+                    if not kernel.is_polygonal(v):
+                        st["t2"] = False
+                    st["noisy_point"] = True
+                    return st
             if not exact and not isinstance(v, str) and kernel.is_polygonal(v) and r.random() < 0.2:
                 # a point on an edge up to float rounding: on the boundary for the library
                 ch = r.choice(kernel.chains_of(v))
@@ -619,6 +639,38 @@ class Scheduler:
                 pnodes.append(J(nd))
         return {"op": "split", "a": a, "k": k, "idx": pidx, "nodes": pnodes}
 
+    def global_probe(self, world):
+        """Ask; run an unrelated curved intersection on two fresh circles; ask the same again.
+        Process-global state written by the unrelated operation (a class attribute used as
+        scratch space, a tolerance adapted to 'the last curves seen') shows as a changed answer."""
+        r = self.rng
+        names = [n for n in sorted(world.slots) if kernel.kind(world.slots[n].V) in ("S", "C", "D")]
+        if not names or len(world.slots) > HEAD_ROOM:
+            return None
+        a = r.choice(names)
+        q = None
+        for _ in range(6):
+            q = self.uquery_step(world, target=a)
+            if q is not None and q["op"] in ("in_point", "contains_point"):
+                break
+            q = None
+        if q is None:
+            return None
+        q["t1"] = True
+        base = len(world.steps)
+        s1, s2 = self.next_slot, self.next_slot + 1
+        self.next_slot += 2
+        rad = r.choice([3.0, 5.0, 8.0, 40.0])
+        c1 = {"op": "build", "what": "circle", "radius": J(rad), "center": _jp((-rad / 2 + 20.0, 30.0)),
+              "ndiv": 4, "dst": s1}
+        c2 = {"op": "build", "what": "circle", "radius": J(rad), "center": _jp((rad / 2 + 20.0, 30.0)),
+              "ndiv": 4, "dst": s2}
+        op = {"op": r.choice(["and", "or"]), "a": s1, "b": s2, "dst": None, "t1": False, "t2": False,
+              "repeat": False}
+        q2 = {k: v for k, v in q.items() if k not in ("fault", "drop")}
+        q2.update(same_answer_as=base, needs=[base + 3], stability=True, t1=True, t2=False)
+        return [q, c1, c2, op, q2]
+
     def memo_probe(self, world):
         """Buggify the module-level memo tables: with cold tables, ask a segment for a higher
         derivative (or a point) first, then ask an ordinary query with the tables dropped
@@ -653,10 +705,16 @@ class Scheduler:
             return None
         kind = r.choice(kinds)
         if kind == "cache_drop":
-            if r.random() < 0.5:
+            x = r.random()
+            if x < 0.4:
                 st = self.memo_probe(world)
                 if st is not None:
                     return st
+            elif x < 0.65:
+                steps = self.global_probe(world)
+                if steps:
+                    self.pending = steps[1:] + self.pending
+                    return steps[0]
             return {"op": "cache_drop"}
         sources = [n for n in sorted(world.slots) if kernel.kind(world.slots[n].V) not in ("E", "W")]
         targets = list(sources)  # shapes and stand-alone curves
